@@ -14,7 +14,7 @@ MUST_REACH = ["handle-finished", "handle-cancelled", "handle-failed", "child-can
 def units(tier):
     quick = tier == "quick"
     us = []
-    B = 100 if quick else 1500
+    B = 240 if quick else 1500
 
     def add(name, children, **p):
         p.setdefault("T", 1)
